@@ -673,11 +673,15 @@ fn run_cli_scripted(_env: &Env, agg: &mut Stats) -> Option<Violation> {
 /// One Game object lives through a whole session (as in the play loops): labels are listed at
 /// every turn and the moves are typed alternately as labels and coordinate pairs; shuffling
 /// policies make placements recur with either side to move.
-pub struct C14Session;
-impl Prop for C14Session {
+pub struct Session {
+    pub name: &'static str,
+    /// C13: only the listings are judged; moves are made by coordinate pairs
+    pub listings_only: bool,
+}
+impl Prop for Session {
     type Case = RepCase;
     fn name(&self) -> &'static str {
-        "C14/session"
+        self.name
     }
     fn max_shrink_iters(&self) -> u32 {
         300
@@ -718,7 +722,7 @@ impl Prop for C14Session {
                 None => continue,
             };
             // a label of the other side's move must be rejected without effect
-            if i % 3 == 0 {
+            if i % 3 == 0 && !self.listings_only {
                 let mut other = cur.clone();
                 other.side = cur.side.other();
                 other.ep = None;
@@ -741,7 +745,7 @@ impl Prop for C14Session {
                     }
                 }
             }
-            let typed_label = i % 2 == 0 || (m.kind == Kind::Promo && m.promo != Some(P::Queen));
+            let typed_label = !self.listings_only && (i % 2 == 0 || (m.kind == Kind::Promo && m.promo != Some(P::Queen)));
             let played = if typed_label {
                 let label = notation::san(&cur, &m, &legal);
                 match game.apply_chess_move_from_raw_algebraic_notation(label.clone()) {
@@ -800,7 +804,10 @@ impl Prop for C14Session {
 pub fn c14_checks() -> Vec<Box<dyn DynCheck>> {
     vec![
         Box::new(C14Typed),
-        Box::new(C14Session),
+        Box::new(Session {
+            name: "C14/session",
+            listings_only: false,
+        }),
         Box::new(FnCheck {
             name: "C14/cli-scripted",
             run: run_cli_scripted,
